@@ -234,7 +234,8 @@ def metaS (m : AL.CallMeta.Meta) : String :=
   "out" ++ mapS (fun (o : String) => hexStr o) m.outputs
 
 /-- `callmeta <node>`: the interface of a reusable workflow from the document node, both ways.
-Answer: `file=<interface|error|notfound|unsupported> ast=<interface|none> diags=<number of parser diagnostics>` -/
+Answer: `file=<interface|error|notfound|unsupported> ast=<interface|none> diags=<number of parser diagnostics>
+hyp=<1|0|na>` (hyp: the hypotheses of AL.Props.C10Meta.interface_agrees_checked hold for the `workflow_call:` node) -/
 def handleCallMeta : List String → String
   | [node] =>
     match (readSExp node) >>= nodeOf with
@@ -248,7 +249,10 @@ def handleCallMeta : List String → String
       let a := match AL.CallMeta.fromDocAst cfg n with
         | some m => metaS m
         | none => "none"
-      s!"file={f} ast={a} diags={(parse cfg n).2.length}"
+      let hyp := match AL.CallMeta.callNode n with
+        | some c => if AL.CallMeta.saneB 3 c && AL.CallMeta.noPlaceholderB c then "1" else "0"
+        | none => "na"
+      s!"file={f} ast={a} diags={(parse cfg n).2.length} hyp={hyp}"
     | none => "bad-op"
   | _ => "bad-op"
 
